@@ -21,6 +21,7 @@ import (
 
 	"github.com/gethiox/HIDI/internal/pkg/logger"
 	"github.com/gethiox/HIDI/internal/pkg/midi/driver"
+	"github.com/gethiox/HIDI/internal/pkg/utils"
 )
 
 func init() {
@@ -135,6 +136,104 @@ func relay(seed int64, ne, per, nin int) string {
 		strings.Join(inSent, ","), strings.Join(inGot, ","), score.MidiEventsEmitted)
 }
 
+
+// pipe <seed> <consumers> <messages> : the whole input path as wired in cmd/hidi (main.go / manager.go): fake port ->
+// ProcessMidiEvents (queue of 8) -> utils.DynamicFanOut -> one queue per device.  The consumers do not read until the
+// pipeline has backed up completely (the writer has made no progress for 60 ms) or everything has been offered; then
+// they drain.  Every message is a freshly allocated slice with its own content.  Reports what each consumer got.
+func pipe(seed int64, nc, nin int) string {
+	rng := rand.New(rand.NewSource(seed))
+	in := &fakeIn{ch: make(chan []byte, rng.Intn(3)*4)}
+	out := &fakeOut{ch: make(chan []byte, 4)}
+	port := driver.Port{Input: in, Output: out}
+	evOut := make(chan Event, 8)
+	evIn := make(chan Event, 8)
+	ctx, cancel := context.WithCancel(context.Background())
+	defer cancel()
+	var score Score
+	ProcessMidiEvents(ctx, port, evOut, evIn, &score)
+	fan := utils.NewDynamicFanOut[Event](evIn)
+	type cons struct {
+		ch  <-chan Event
+		got []string
+	}
+	var cs []*cons
+	for i := 0; i < nc; i++ {
+		_, ch, err := fan.SpawnOutput()
+		if err != nil {
+			return "spawn-error"
+		}
+		cs = append(cs, &cons{ch: ch})
+	}
+	var sent []string
+	var mu sync.Mutex
+	progress := 0
+	wdone := make(chan struct{})
+	go func() {
+		defer close(wdone)
+		for i := 0; i < nin; i++ {
+			b := []byte{0x80 | byte(i%16), byte(i >> 7 & 0x7f), byte(i & 0x7f)}
+			if i%7 == 3 {
+				b = append(b, 0xf0, byte(i), 0xf7)
+			}
+			in.ch <- b
+			mu.Lock()
+			progress = i + 1
+			mu.Unlock()
+		}
+	}()
+	for i := 0; i < nin; i++ {
+		b := []byte{0x80 | byte(i%16), byte(i >> 7 & 0x7f), byte(i & 0x7f)}
+		if i%7 == 3 {
+			b = append(b, 0xf0, byte(i), 0xf7)
+		}
+		sent = append(sent, hex.EncodeToString(b))
+	}
+	// wait for saturation: no progress of the writer for 60 ms (or done)
+	last, still := -1, 0
+	for still < 6 {
+		select {
+		case <-wdone:
+			still = 99
+		case <-time.After(10 * time.Millisecond):
+		}
+		mu.Lock()
+		p := progress
+		mu.Unlock()
+		if p == last {
+			still++
+		} else {
+			last, still = p, 0
+		}
+	}
+	var wg sync.WaitGroup
+	for _, c := range cs {
+		wg.Add(1)
+		go func(c *cons) {
+			defer wg.Done()
+			for len(c.got) < nin {
+				select {
+				case e := <-c.ch:
+					c.got = append(c.got, hex.EncodeToString(e))
+				case <-time.After(2 * time.Second):
+					return
+				}
+			}
+			select {
+			case e := <-c.ch:
+				c.got = append(c.got, hex.EncodeToString(e))
+			case <-time.After(30 * time.Millisecond):
+			}
+		}(c)
+	}
+	wg.Wait()
+	var parts []string
+	for _, c := range cs {
+		parts = append(parts, strings.Join(c.got, ","))
+	}
+	return fmt.Sprintf("sent=%s | got=%s", strings.Join(sent, ","), strings.Join(parts, ";"))
+}
+
 func TestVerifRunner(t *testing.T) {
 	outPath := os.Getenv("VERIF_OUT")
 	if outPath == "" {
@@ -168,6 +267,13 @@ func TestVerifRunner(t *testing.T) {
 			per, _ := strconv.Atoi(toks[3])
 			nin, _ := strconv.Atoi(toks[4])
 			fmt.Fprintln(w, relay(seed, ne, per, nin))
+			w.Flush()
+		}
+		if toks[0] == "pipe" {
+			seed, _ := strconv.ParseInt(toks[1], 10, 64)
+			nc, _ := strconv.Atoi(toks[2])
+			nin, _ := strconv.Atoi(toks[3])
+			fmt.Fprintln(w, pipe(seed, nc, nin))
 			w.Flush()
 		}
 	}
